@@ -247,7 +247,15 @@ func (c Cap) RectBound() Rect {
 		sinA := c.radius.Sin()
 		sinC := math.Cos(latitude(c.center).Radians())
 		if sinA <= sinC {
-			angleA := math.Asin(sinA / sinC)
+			// Compute the angle from its sine and cosine rather than with
+			// Asin(sinA/sinC): near a ratio of 1 (a cap within ~1.5e-8 of a
+			// hemisphere centred near the equator) Asin loses up to 1.5e-8
+			// radians and the bound would not contain the cap. With cos(a)
+			// the cosine of the cap angle and cos(c) = sin(latitude),
+			// cos(A)*sin(c) = sqrt(cos(a)^2 - cos(c)^2).
+			cosA := c.radius.Cos()
+			cosC := math.Sin(latitude(c.center).Radians())
+			angleA := math.Atan2(sinA, math.Sqrt(math.Max(0, (cosA-cosC)*(cosA+cosC))))
 			// IntervalFromEndpoints maps an endpoint of exactly -Pi (which
 			// Remainder can return) to +Pi; a raw -Pi would make the
 			// interval invalid and exclude longitude 180 degrees.
